@@ -139,6 +139,22 @@ def run(ctx, rep):
                 if okk:
                     rep.ok("C09.siblings", key + " delegates " + cs.name, None)
                 n_sib += 1
+        # a hidden result (Hiding): the CMR it is given must be computed by the algebra in this method, never a child's
+        # root passed through (a hidden `disconnect h` must not have the root of `h`)
+        if "hiding::Hiding" in (f.impl_self or ""):
+            for cs in f.calls():
+                if cs.name in ("hidden_cloned_ctx", "hidden") and len(cs.args) >= 2:
+                    t = T.operand(cs.args[0] if cs.name == "hidden" else cs.args[1])
+                    top = t
+                    while isinstance(top, tuple) and top and top[0] in ("un", "deref", "ref", "cast"):
+                        top = top[-1]
+                    key = "%s::%s:hidden-root" % (impl_short(f), m)
+                    if isinstance(top, tuple) and top and top[0] == "call" and top[1].startswith(CMR) and top[2] in CMR_FNS:
+                        rep.ok("C09.siblings", key + " = Cmr::" + top[2], None)
+                        n_sib += 1
+                    else:
+                        rep.violation("C09.siblings", key, "the hidden %s node is given the root %s, which is not computed by Cmr::%s in this method"
+                                      % (m, show(t)[:80], want_alg), cs.where())
         if f.impl_self in CMR_CARRIERS and n_cmr + n_del == 0:
             rep.violation("C09.siblings", "%s::%s:empty" % (impl_short(f), m),
                           "method neither computes a CMR nor delegates to the same method", f.where())
